@@ -132,8 +132,8 @@ example : WF09 exWF09 = true ∧ region09 exWF09 = "WF" := by decide
 example : (tables exWF09 (plan exWF09)).destAlloc = [["Core"]] ∧
     (tables exWF09 (plan exWF09)).srcAlloc = [["Base"], ["Base", "Inner"]] := by decide
 example : (execTo exWF09 ["Base.Inner", "P", "Subs#1"]).show (leavesOf exWF09.dest) =
-    "Core.ID=Base.ID;X=zero;P=zero;Subs=[Subs,zero]" := by decide
-example : (execTo exWF09 ["Base"]).show (leavesOf exWF09.dest) = "Core.ID=zero;X=zero;P=P;Subs=[Subs,Subs]" := by decide
+    "Core.ID=Base.ID;X=zero;P=zero;Subs=[Subs,zero,Subs]" := by decide
+example : (execTo exWF09 ["Base"]).show (leavesOf exWF09.dest) = "Core.ID=zero;X=zero;P=P;Subs=[Subs,Subs,Subs]" := by decide
 
 /-! ### finding region -/
 
